@@ -262,6 +262,72 @@ def c03_streams(ctx):
 
 
 # ------------------------------------------------------------------------------------------------
+# C04
+
+ALNUM = DIGITS + UPPER
+
+
+def random_bic(ctx, long=None, strict=False, cc=None):
+    rng = ctx.rng
+    if long is None:
+        long = rng.random() < 0.5
+    cc = cc or rng.choice(ctx.facts["iso3166"])
+    s = "".join(rng.choice(UPPER if strict else ALNUM) for _ in range(4)) + cc
+    s += "".join(rng.choice(ALNUM) for _ in range(2))
+    if long:
+        s += "".join(rng.choice(ALNUM) for _ in range(3))
+    return s
+
+
+def c04_inputs(ctx):
+    rng = ctx.rng
+    wide = wide_alphabet(ctx)
+    n = 6 if ctx.quick else 60
+    for long in (False, True):
+        for _ in range(n):
+            v = random_bic(ctx, long)
+            yield v, "valid", True
+            yield v.lower(), "valid-lower", True
+            k = rng.randrange(len(v) + 1)
+            yield v[:k] + chr(rng.choice(ctx.facts["ws"])) + v[k:], "valid-ws", True
+            for p in range(len(v)):
+                chars = wide if not ctx.quick else rng.sample(wide, 10) + ["-", "0", "A", "a", "٠"]
+                for ch in chars:
+                    yield v[:p] + ch + v[p + 1:], "mutation", True
+            # lengths 0..14
+            for L in range(0, 15):
+                yield (v + "XXXXXX")[:L], "length", L in (8, 11)
+            # appended / prepended garbage at accepted total lengths
+            if not long:
+                for tail in ("-SS", "GL٠", "G S", "\n\n\n", "...", "gls", "ßßß"):
+                    yield v + tail, "trailing", True
+    # all 676 two-letter codes
+    letters = UPPER
+    base = random_bic(ctx, True)
+    pairs = [(a, b_) for a in letters for b_ in letters]
+    if ctx.quick:
+        pairs = rng.sample(pairs, 60) + [("D", "E"), ("X", "K"), ("X", "X"), ("E", "U"), ("U", "K"), ("A", "N")]
+    for a, b_ in pairs:
+        yield base[:4] + a + b_ + base[6:], "country", True
+    for g in ("", "GENODEM1GLS", "GENODEM1G-S", "GENODEM1GL٠", "GENO DE M1 GLS", "genodem1gls", "GENODEM1", "GENODEM1 ",
+              "1234DEWWXXX", "GENODEKM1GLS"[:11], "GENOKDM1", "GENODEM1\n", "GENODEM1GLS\n", "GENOD\u212aM1",
+              "GENO\u0130EM1", "ſENODEM1", "GENODEM1GLSX", "AAAA", "GENOXKM1"):
+        yield g, "special", True
+
+
+def c04_streams(ctx):
+    for t, tag, nt in c04_inputs(ctx):
+        for strict in ("0", "1"):
+            yield Case("corr", "bic_new", [enc(t), "0", strict], tag, nt)
+            yield Case("prop", "spec_bic_accept", [enc(t), strict], tag, nt)
+    for strict in ("0", "1"):
+        for s in ("GENODEM1", "GENODEM1GLS", "GENODEM1G", "GENODEM1GLSX", "GENODEM1G-S", "GENODEM", "genodem1", "", "GENODEM1\n",
+                  "1234DEWW", "GENODEM1GL\n"):
+            for meth in ("match", "fullmatch", "search"):
+                yield Case("corr", "re_bic", [strict, meth, enc(s)], "regex-bic", True)
+
+
+# ------------------------------------------------------------------------------------------------
 # known findings
 
 def match_known(v: dict, known: list):
@@ -292,6 +358,12 @@ PREDICATES = {}
 
 
 REGISTRY = {
+    "C04": {
+        "streams": c04_streams,
+        "rule": "valid 8- and 11-character BICs over pycountry's codes; every position x wide alphabet (sampled in quick); "
+                "lengths 0..14; trailing garbage at accepted lengths; two-letter country codes (all 676 in thorough); both "
+                "compliance modes; BIC(text) vs model (correspondence) and vs extracted ISO 9362 spec (property)",
+    },
     "C03": {
         "streams": c03_streams,
         "rule": "per country: valid IBANs; every position >= 2 x same-kind replacement characters (all in thorough, 2 per "
